@@ -176,6 +176,7 @@ pub struct SeamWorld {
     pub ext_seen: Mutex<BTreeMap<(String, u64), u64>>,
     /// a monitor violation was reported in this execution: the state below it is not judged again
     pub poisoned: Mutex<bool>,
+    pub lost_reply: LostReplyWatch,
 }
 
 pub struct SeamScn {
@@ -280,7 +281,9 @@ impl Scenario for SeamScn {
             watch: ManifestWatch::default(),
             ext_seen: Mutex::new(BTreeMap::new()),
             poisoned: Mutex::new(false),
+            lost_reply: LostReplyWatch::default(),
         };
+        w.t.env.store.enable_log(true);
         w.watch.observe(&w.t.env.store);
         (w, actors)
     }
@@ -313,8 +316,18 @@ impl Scenario for SeamScn {
     }
     async fn monitor(&self, w: &SeamWorld, p: &PointRec) -> Vec<Violation> {
         let mut out = vec![];
+        let lost = w.lost_reply.observe(&w.t, p);
         if *w.poisoned.lock().unwrap() {
             return out;
+        }
+        if let Some(l) = lost {
+            *w.poisoned.lock().unwrap() = true;
+            return vec![Violation::new(
+                "lost-put-reply",
+                &format!("{}/seam/{}/lost-put-reply-handled-as-conflict", self.cfg.prop, self.cfg.handler.tag()),
+                l,
+                json!({}),
+            )];
         }
         let at = format!("after {}", p.norm());
         for b in w.watch.observe(&w.t.env.store) {
